@@ -133,6 +133,40 @@ impl Property for C16 {
         let mut xot = Xot::new();
         let mut hs = vec![];
         let mut doc = doc;
+        if src.ratio(1, 16) {
+            // one very long token (text, comment or attribute value): larger than any reasonable write buffer
+            let long: String = std::iter::repeat("abcdefghij").take(450 + 2 * src.choice(200)).collect();
+            fn first_leaf(n: &mut ANode, long: &str, which: usize) -> bool {
+                match n {
+                    ANode::Text(t) if which == 0 => {
+                        t.push_str(long);
+                        true
+                    }
+                    ANode::Comment(t) if which == 1 => {
+                        t.push_str(long);
+                        true
+                    }
+                    ANode::Element(e) if which == 2 && !e.attrs.is_empty() => {
+                        e.attrs[0].1.push_str(long);
+                        true
+                    }
+                    _ => {
+                        if let Some(ch) = n.children_mut() {
+                            for c in ch.iter_mut() {
+                                if first_leaf(c, long, which) {
+                                    return true;
+                                }
+                            }
+                        }
+                        false
+                    }
+                }
+            }
+            let which = src.choice(3);
+            if first_leaf(&mut doc, &long, which) {
+                ctx.label("very_long_token");
+            }
+        }
         if src.ratio(1, 12) {
             // a deep chain of element-only wrappers around the (first) element: indentation levels
             // well beyond anything a fixed-size buffer or a small counter would hold
